@@ -169,6 +169,9 @@ def _c19_concrete(kind, losses, patience, min_delta, rep):
         conv = float
     elif rep == "np.float32":
         conv = np.float32
+    elif rep == "jax.bfloat16":
+        import jax.numpy as jnp
+        conv = lambda v: jnp.asarray(v, dtype=jnp.bfloat16)
     else:
         import jax.numpy as jnp
         conv = lambda v: jnp.asarray(v, dtype=jnp.float32)
@@ -183,7 +186,11 @@ def _c19_concrete(kind, losses, patience, min_delta, rep):
             first = i
             break
     # the reference on the float32-rounded values the classes actually saw
-    seen = [float(np.float32(l)) if rep != "float" else float(l) for l in losses]
+    if rep == "jax.bfloat16":
+        import jax.numpy as jnp
+        seen = [float(jnp.asarray(l, dtype=jnp.bfloat16)) for l in losses]
+    else:
+        seen = [float(np.float32(l)) if rep != "float" else float(l) for l in losses]
     efirst, _ = c19_stop.ref_run(seen, patience, min_delta)
     ebest = c19_stop.ref_run(seen if first < 0 else seen[: first + 1], patience, min_delta)[1]
     bidx = sc.best_model[1] if isinstance(sc.best_model, tuple) else -2
@@ -251,6 +258,17 @@ def run_c19(cx, tier="quick"):
                         n += 1
                         if not ok:
                             bad.append(d)
+    # rounding-sensitive histories: an improvement of exactly one unit in the last place of the scalar type, with min_delta a
+    # fraction (0.6) of that unit - the comparison `loss < best - min_delta` must be made on the values, not in the loss's own
+    # low-precision arithmetic (where best - min_delta rounds a whole unit down and the improvement is missed)
+    for rp, base, ulp in (("np.float32", 2.0 ** 20, 2.0 ** -4), ("jax", 2.0 ** 20, 2.0 ** -4), ("jax.bfloat16", 0.5, 2.0 ** -9), ("float", 2.0 ** 20, 2.0 ** -4)):
+        for kind in ("train", "val"):
+            for pat in (0, 1):
+                for losses in ([base, base - ulp, base - ulp], [base, base - ulp, base - 2 * ulp, base - 2 * ulp], [base, base, base - ulp]):
+                    ok, d = _c19_concrete(kind, list(losses), pat, 0.6 * ulp, rp)
+                    n += 1
+                    if not ok:
+                        bad.append(d)
     cx.validated_against_impl(n)
     if bad:
         cx.external("genuine scalars (float, np.float32, jax) on the real classes", "sat", bad[0] + f" (+{len(bad) - 1} more)", reproduced=True,
